@@ -545,6 +545,13 @@ class OnlineRules(FoldRules):
             for n in walk_local(fs.node):
                 if isinstance(n, (ast.Global, ast.Nonlocal)):
                     ctx.ob("O8", f"{q}/global-decl", False, "global/nonlocal declaration in a resolution helper", node=n, mod=fs.mod)
+        # ... and neither does anything else the fold body calls (a bookkeeping helper invoked next to the resolvers): the transitive write-set of
+        # the fold function itself contains no module-level object
+        if self.q in eff.funcs:
+            gw = sorted((w for w in eff.tw[self.q] if w[0][0] == "global"), key=str)
+            ctx.ob("O8", f"{self.q}/frame", not gw,
+                   "nothing reachable from the fold writes a module-level object (state that survives the call makes a later call, e.g. on a prefix of the "
+                   f"list, depend on an earlier one); writes={[(w[0], w[1], w[2], w[3]) for w in gw][:4]}", node=self.f, mod=self.m)
         # mutable default arguments in reachable functions
         for q in sorted(reach):
             fs = eff.funcs[q]
